@@ -70,6 +70,9 @@ type Universe struct {
 	Root   *Ent
 	// ErrOn["T/id/sub"]: the subgraph answers this entity with an `errors` entry (and null for its first field)
 	ErrOn map[string]bool
+	// Unknown["T/id/sub"]: the subgraph does not know this entity: it answers `null` at its position in
+	// `_entities` (a legitimate answer, no error)
+	Unknown map[string]bool
 }
 
 var entityTypeNames = []string{"A", "B", "C"}
@@ -86,6 +89,7 @@ type GenOptions struct {
 	Requires    bool // allow @requires-like dependencies between entity fetches
 	NullableReq bool // allow the required field to be nullable in the representation (C07 probe)
 	ErrEntities bool // some entities answer with errors (C16b: never cached)
+	UnknownEntities bool // some entities are unknown to some subgraph: `null` inside `_entities` (no error)
 	Serial      bool // force a fully serial fetch tree
 	SharedOps   bool // operation text depends on the selection only (two fetches may send identical requests; C16b wants shared cache keys)
 }
@@ -181,7 +185,7 @@ func (g *Gen) Universe() *Universe {
 	s.Query = &TypeDef{Name: "Query"}
 	g.typeFields(s.Query, nsub, true)
 	s.byN["Query"] = s.Query
-	u := &Universe{Schema: s, Ents: map[string]*Ent{}, ErrOn: map[string]bool{}}
+	u := &Universe{Schema: s, Ents: map[string]*Ent{}, ErrOn: map[string]bool{}, Unknown: map[string]bool{}}
 	ids := []string{"1", "2", "3", "4"}
 	for _, t := range s.Types {
 		n := 2 + g.R.Pick(3)
@@ -242,6 +246,9 @@ func (g *Gen) Universe() *Universe {
 		fill(e, s.byN[e.Type])
 		if g.Opt.ErrEntities && g.R.Chance(1, 6) {
 			u.ErrOn[k+"/"+strconv.Itoa(g.R.Pick(nsub))] = true
+		}
+		if g.Opt.UnknownEntities && g.R.Chance(1, 4) {
+			u.Unknown[k+"/"+strconv.Itoa(g.R.Pick(nsub))] = true
 		}
 	}
 	u.Root = &Ent{Type: "Query", ID: "", Vals: map[string]any{}}
